@@ -214,8 +214,25 @@ func runC12(c *core.Ctx) {
 			loaders = append(loaders, "Metablock.Load")
 		}
 		good := true
+		// every 7th file is written and read back through another path to it: a symbolic link
+		// (metadata directories of symbolic links into a store are common)
+		viaLink := ""
+		if i%7 == 3 {
+			viaLink = p + ".through-a-link"
+			os.Remove(viaLink)
+			if os.Symlink(filepath.Base(p), viaLink) != nil {
+				viaLink = ""
+			} else if derr := md.Dump(viaLink); derr != nil {
+				c.Violation("Dump through a symbolic link fails: "+core.MsgClass(derr.Error()), id, nil)
+			}
+		}
 		for _, loader := range loaders {
-			back, err, panicked := c12Load(c, id, loader, p)
+			lp := p
+			if viaLink != "" {
+				lp = viaLink
+				detail["path"] = "a symbolic link to the file"
+			}
+			back, err, panicked := c12Load(c, id, loader, lp)
 			if panicked {
 				good = false
 				continue
@@ -857,7 +874,7 @@ func init() {
 	core.Register(&core.Property{
 		ID:    "C12",
 		Level: "exploration",
-		Rule: "(A) round trip: seeded links/layouts (hostile strings, nested values, constraints, CA maps; a fifth with absent collections, which the library writes as null; every 13th with content that spells the member names of the file formats (payloadType, payload, signatures, signed, _type); every 41st of several hundred KiB: 1500 products / 2500 rules) x wrapper x 0-2 signatures (legacy: one with certificate), Dump -> LoadMetadata / Metablock.Load: wrapper recognised, payload, signatures and signature validity preserved; (B) labelled single-point corruptions of the dumped JSON: drop/null/retype of the wrapper parts, wrong payload types, undecodable payload, a complete document followed by something (inside the envelope payload and behind the file), truncations, unknown/odd type markers, drop/rename of every required top-level member, an unknown member at every fixed-schema level, a renamed member at every nested fixed-schema level, a value of another JSON type at every schema-typed node - all must be refused by both loaders; (C) ValidateMetablock against a reference validator (one predicate per format rule) on conforming bases and ~64 single-rule variants (malformed rules also in front of and between well-formed ones; well-formed rules whose operands are spelled like keywords or contain blanks; malformed rules that read like an earlier well-formed rule of the same layout once their words are joined) (plus 17 near-hexadecimal strings - sign, 0x, blanks, underscore, full-width digits - at every place where a hexadecimal string is demanded) each for layouts (all three key maps) and links. " +
+		Rule: "(A) round trip: seeded links/layouts (hostile strings, nested values, constraints, CA maps; a fifth with absent collections, which the library writes as null; every 13th with content that spells the member names of the file formats (payloadType, payload, signatures, signed, _type); every 41st of several hundred KiB: 1500 products / 2500 rules) x wrapper x 0-2 signatures (legacy: one with certificate), Dump -> LoadMetadata / Metablock.Load (every 7th file written and read back through a symbolic link to it): wrapper recognised, payload, signatures and signature validity preserved; (B) labelled single-point corruptions of the dumped JSON: drop/null/retype of the wrapper parts, wrong payload types, undecodable payload, a complete document followed by something (inside the envelope payload and behind the file), truncations, unknown/odd type markers, drop/rename of every required top-level member, an unknown member at every fixed-schema level, a renamed member at every nested fixed-schema level, a value of another JSON type at every schema-typed node - all must be refused by both loaders; (C) ValidateMetablock against a reference validator (one predicate per format rule) on conforming bases and ~64 single-rule variants (malformed rules also in front of and between well-formed ones; well-formed rules whose operands are spelled like keywords or contain blanks; malformed rules that read like an earlier well-formed rule of the same layout once their words are joined) (plus 17 near-hexadecimal strings - sign, 0x, blanks, underscore, full-width digits - at every place where a hexadecimal string is demanded) each for layouts (all three key maps) and links. " +
 			"non-trivial = the corruption changed the parsed JSON / the variant differs from the base; distinct = (kind, wrapper, loader, corruption label) resp. hash of the value",
 		Assumptions: []string{
 			"an expiry with fractional seconds (2030-01-01T00:00:00.5Z) is not judged: it is a parseable UTC timestamp, although not of the YYYY-MM-DDThh:mm:ssZ shape",
